@@ -28,7 +28,7 @@ def _run_groups(ctx, groups, label, nproc=12):
             if r.get("machinery") or r.get("noresult"):
                 ctx.machinery_errors.append(str(r)); continue
             others = [x for x in lb2s if x is not None]
-            c = mgh.pair_case(g["gx"], g["gy"], r, exact=True, others=others, algo=False)
+            c = mgh.pair_case(g["gx"], g["gy"], r, exact=g.get("exact", True), others=others, algo=False)
             cases.append(c); meta.append((g, j))
     _judge(ctx, cases, meta, label, nproc)
 
@@ -98,6 +98,24 @@ def run(ctx):
         reps = rng.sample(mgh.REPRS, 5)
         groups.append(dict(gx=gx, gy=gy, jobs=[_pair_job(gx, gy, r, rng.choice(mgh.REPRS), seed=t) for r in reps]))
     _run_groups(ctx, groups, "V-representations")
+    # "under any vertex relabelling": a graph against a relabelled copy of itself, 6..12 vertices, under random containers.  The relabelling is
+    # the certificate (TLC verifies it is an isometry): the distance is 0, so any positive lower bound is a violation.  Many pairs are run
+    # through the code; TLC sees every pair with a positive lower bound plus a sample of the rest.
+    items = []
+    def iso_filter(gx, gy, iso, keep):
+        def mk(res):
+            c = mgh.pair_case(gx, gy, res, False, iso=iso, algo=False)
+            return [c] if (keep or c["raised"] or not c["halfint"] or c["lb2"] > 0) else []
+        return mk
+    for t in range(2500 if quick else 30000):
+        n = rng.randint(6, 12)
+        gx = (n, mgh.rand_connected(rng, n, rng.choice(["tree", "tree", "sparse", "lollipop", "sparse"])))
+        E2, p = mgh.relabel(rng, n, gx[1])
+        gy = (n, E2)
+        it = mgh.mk_pair_item(gx, gy, rng.choice(mgh.REPRS), rng.choice(mgh.REPRS), seed=rng.randrange(1000), order=[0, 0], exact=False, owner="C17", iso=p, hook=False)
+        it["mk"] = iso_filter(gx, gy, p, t % 60 == 0)
+        items.append(it)
+    mgh.validate(ctx, items, "V-relabelled copies (6..12 vertices, relabelling verified by TLC)", "C17")
     # disconnected graphs
     groups = []
     for t in range(60 if quick else 600):
@@ -120,6 +138,11 @@ def run(ctx):
             rep = rng.choice([r for r in mgh.REPRS if r["kind"] in ("csr", "dense", "list")])
             jobs = [_pair_job(gx, one, rep, mgh.CANON, seed=n), _pair_job(one, gx, mgh.CANON, rep, seed=n)]
             groups.append(dict(gx=gx, gy=one, jobs=[jobs[0]]))
+            # ... and against K2 and the path on 3 vertices (no exact oracle at this size: the diameter-difference bound decides the upper bound,
+            # 2*mGH >= diam X - diam Y for every pair of maps)
+            for small in ((2, [(1, 2)]), (3, [(1, 2), (2, 3)])):
+                groups.append(dict(gx=gx, gy=small, exact=False, jobs=[_pair_job(gx, small, rep, mgh.CANON, seed=n)]))
+                groups.append(dict(gx=small, gy=gx, exact=False, jobs=[_pair_job(small, gx, mgh.CANON, rep, seed=n + 1)]))
             groups.append(dict(gx=one, gy=gx, jobs=[jobs[1]]))
     _run_groups(ctx, groups, "V-dtype-boundary", nproc=8)
     # the other side of the same boundary: more than 127 VERTICES with a small diameter, under list / dense / sparse containers
